@@ -218,6 +218,12 @@ func (s *Server) ServeHTTP(w http.ResponseWriter, r *http.Request) {
 			return
 		}
 
+		if r.Method != "GET" && r.Method != "POST" && r.ProtoMajor != 3 {
+			// The transports only handle GET and POST; anything else got an empty 200.
+			writeServerError(w, ErrorBadRequest)
+			return
+		}
+
 		t.ServeHTTP(w, r)
 	}
 }
